@@ -44,6 +44,7 @@ type GenCfg struct {
 	ForceCatch         bool     // make sure at least one primitive has Catch
 	NoDataTests        bool     // struct / slice level tests are data-independent (pass / fail, no contains)
 	PCoercer           float64  // per primitive/slice: WithCoercer(custom)
+	PComplex           float64  // per "func" test: written as a complex test (z.Test{Func} + ctx.AddIssue)
 	PLayout            float64  // per time node: z.Time.Format(layout)
 	GlobalKinds        []string // base kinds (string,int,float64,bool,time,slice) whose global coercer is overridden in this run
 	TagKinds           []string // source tags (json, form, query, env) that struct fields may carry
@@ -65,7 +66,7 @@ func DefaultCfg(mode string) GenCfg {
 	return GenCfg{
 		MaxDepth: 3, MaxFields: 4, MaxElems: 4, MaxTests: 3, Mode: mode,
 		PCatch: 0.15, PDefault: 0.12, PReq: 0.45, PPost: 0.1, PAbsent: 0.12, PJunk: 0.05, PVary: 0.25,
-		PTestSat: 0.8, POpts: 0.12, PZogTag: 0.25, PLong: 0.02, PVia: 0.12, PStructInput: 0.2, PEmbed: 0.15, PPtrInput: 0.08,
+		PTestSat: 0.8, POpts: 0.12, PZogTag: 0.25, PLong: 0.02, PVia: 0.12, PStructInput: 0.2, PEmbed: 0.15, PPtrInput: 0.08, PComplex: 0.15,
 		LeafKinds: []string{KString, KString, KInt, KInt, KInt32, KInt64, KFloat32, KFloat64, KBool, KTime},
 	}
 }
@@ -356,6 +357,22 @@ func (g *Gen) funcTest(preds []string, idx int) TestSpec {
 		ts.Opts.Code = fmt.Sprintf("f%d", idx)
 	}
 	ts.AsValue = g.p(0.3, "asvalue") // a reusable z.TestFunc value, copied and specialised by field assignment
+	if g.p(g.Cfg.PComplex, "complex") {
+		// the same predicate written as a complex test (z.Test{Func} reporting through ctx.AddIssue)
+		ts.AsValue = false
+		ts.Complex = pick(g, []string{"ctx", "ctx", "hand", "handpath"}, "cx")
+		switch ts.Complex {
+		case "ctx":
+			ts.Opts.Path = "" // (what ctx.Issue() prefills is the point)
+		case "hand":
+			ts.Opts.Path = ""
+		case "handpath":
+			if ts.Opts.Path == "" {
+				ts.Opts.Path = fmt.Sprintf("hand.p%d", idx)
+			}
+		}
+		ts.Opts.MsgFunc, ts.Opts.MsgLast = "", false
+	}
 	return ts
 }
 
